@@ -182,6 +182,9 @@ def slices(quick: bool) -> list[dict]:
                  edges=[E2, ()], closed=["left"], cosmo=["WMAP9", "none"], workers=[4]),
             maxmods=2 if quick else 3, maxdelta=1, workers=4),
     ]
+    # modifications to FALSY values (None, 0.0) must be honoured like any other value
+    out.append(make_slice("modify-falsy", dict(rw=[(1, 20), (3, 50)], cosmos=["omitted"], workers=[NONE, 4]),
+                          dict(rw=[NONE, 0, 2], res=[NONE, 10], workers=[NONE, 4]), maxmods=1, maxdelta=1 if quick else 2))
     if not quick:
         out.append(make_slice("modify-3keys", dict(methods=["linear", "comoving"], cosmos=["omitted", "WMAP9"]),
                               dict(rmin=[(50,)], unit=["kpc/h"], zmin=[20], zmax=[200], nb=[2], method=["comoving", "logspace"],
